@@ -226,10 +226,10 @@ def run_config(ctx, rep, cfg, F, only_acc=None):
                 rep.ok("R11.3", short, str(var))
     else:
         rep.bad("R11.3", short, "missing", "%s not found" % short, kind="unrecognised", config=cfg)
-    rep.floor("view navigation / accessor paths (%s)" % cfg, n, 60)
+    rep.floor("view navigation / accessor paths (%s)" % cfg, n, 40)
     # view_at / view_mut_at / find locate q relative to the view (rule R12.1 of C12, shared): needed for "repeated
     # navigation below a virtual node"
-    c12.run_config(ctx, rep, cfg, F, funcs={k: (v[0], "R11.3") for k, v in c12.FUNCS.items() if v[0] == "find"}, floor=300)
+    c12.run_config(ctx, rep, cfg, F, funcs={k: (v[0], "R11.3") for k, v in c12.FUNCS.items() if v[0] == "find"}, floor=500)
 
 
 def finalize(ctx, rep):
